@@ -389,7 +389,7 @@ static std::string run_case(const Args& a, long i, const std::string& path) {
                 if (std::fabs(geo.volume - gi.volume) > tolv) { cs.viol("tri_off:volume", "returned cell does not enclose the input volume"); break; }
             }
             if (shrink / lmin > c1) { cs.viol("unfaithful:aabb_shrunk", "a side of the bounding box of returned cell " + std::to_string(k) + " (" + fams[k] + ") lies " + std::to_string((double)(shrink / lmin)) + " l_min inside the input bounding box"); break; }
-            if (dv > c2) { cs.viol("unfaithful:volume", "|V-V_in| of returned cell " + std::to_string(k) + " (" + fams[k] + ") is " + std::to_string((double)dv) + " l_min*A_in"); break; }
+            if (dv > c2) { cs.viol(std::string("unfaithful:volume") + (fams[k] == "dumbbell" ? ":necks_thinner_than_lmin" : ""), "|V-V_in| of returned cell " + std::to_string(k) + " (" + fams[k] + ") is " + std::to_string((double)dv) + " l_min*A_in"); break; }
             if (dmax / lmin > c3) { cs.viol("unfaithful:node_off_surface", "a node of returned cell " + std::to_string(k) + " (" + fams[k] + ") is " + std::to_string((double)(dmax / lmin)) + " l_min away from the input surface"); break; }
             if (mode == TRI_ON) {
                 // evidence only: edge lengths, coverage of the input vertices, hole-filling (a hole-centre node is exactly the mean of its ring)
